@@ -112,8 +112,9 @@ def fam_polygon_in(ctx, kind, fr_name, perm, mode):
     if kind == 'Plane':
         P = B.polygon('quad', fr_name, perm=perm)
         e = R.vsub(P.verts[1], P.verts[0])
-        w = P.n if mode == 'lift' else e
-        S = R.RPlane(P.verts[2], P.n)
+        flip = mode.endswith('-flip')       # plane given with the opposite (and rescaled) normal: the same point set
+        w = P.n if mode.startswith('lift') else e
+        S = R.RPlane(P.verts[2], R.vscale(F(-3, 2), P.n) if flip else P.n)
         cand = B.rpoly(P, R.vscale(t, w))
         q = R.dot(P.n, R.vscale(t, w))
         ctx.assume(Or(q == 0, q * q >= R.MARGIN ** 2 * R.norm2(P.n)))
@@ -129,7 +130,7 @@ def fam_polygon_in(ctx, kind, fr_name, perm, mode):
         k = F(1, 4)
         nn = R.norm2(n)
         pts = [R.affine(c0, (k, e)), R.affine(c0, (-k, e)), R.affine(c0, (k / 4, e2))]
-        w = n if mode == 'lift' else e
+        w = n if mode.startswith('lift') else e
         S = B.rbody(K)
         off = R.vscale(t, w)
         cand = R.RPolygon([R.vadd(p, off) for p in pts])
@@ -181,7 +182,7 @@ def families(tier, seed):
                     fams.append(Family('%s_in/%s/%s/%s' % (ckind, kind, mode, tag), fam_composite, (ckind, kind, fr_name, perm, mode),
                                        must_reach=('in', 'out') if mode != 'lift' else ('out',)))
             for kind in ('Plane', 'ConvexPolyhedron'):
-                for mode in ('lift', 'slide'):
+                for mode in ('lift', 'slide') + (('lift-flip', 'slide-flip') if kind == 'Plane' else ()):
                     fams.append(Family('ConvexPolygon_in/%s/%s/%s' % (kind, mode, tag), fam_polygon_in, (kind, fr_name, perm, mode),
                                        must_reach=('in',)))
     return fams
